@@ -299,6 +299,97 @@ theorem C15_insert_absent (cs : List DNode) (k v : Str) (h : pget cs k = none) :
     have := set_skip (pitems cs) [] k v this
     simpa [ListSpec.set] using this.symm
 
+/-! ### accessors over several names (Author / From, Description / Subject)
+
+The getter reads `firstOf names` (`get(A).or_else(|| get(B))`), the setter writes `target`: the first
+of the names that is present, else its default name. -/
+
+theorem target_mem (cs : List DNode) (names : List Str) (dflt : Str) (hd : dflt ∈ names) :
+    target cs names dflt ∈ names := by
+  unfold target
+  cases h : names.find? fun n => (pget cs n).isSome with
+  | some n => exact List.mem_of_find?_eq_some h
+  | none => exact hd
+
+theorem firstOf_none_iff (cs : List DNode) (names : List Str) :
+    firstOf cs names = none ↔ ∀ n ∈ names, pget cs n = none := by
+  induction names with
+  | nil => simp [firstOf]
+  | cons n ns ih =>
+    simp only [firstOf]
+    cases h : pget cs n with
+    | some v => simp [h]
+    | none => simp [h, ih]
+
+theorem firstOf_set_present (cs : List DNode) (names : List Str) (k v : Str)
+    (h : (names.find? fun n => (pget cs n).isSome) = some k) :
+    firstOf (paraSet cs k v) names = some v := by
+  induction names with
+  | nil => simp at h
+  | cons n ns ih =>
+    simp only [List.find?_cons] at h
+    cases hp : (pget cs n).isSome with
+    | true =>
+      rw [hp] at h
+      simp only [Option.some.injEq] at h
+      subst h
+      simp [firstOf, C15_set_get]
+    | false =>
+      rw [hp] at h
+      have hk : (pget cs k).isSome = true := by simpa using List.find?_some h
+      have hne : n ≠ k := by
+        intro e; subst e; rw [hp] at hk; cases hk
+      have hn : pget (paraSet cs k v) n = none := by
+        rw [(C15_set_frame cs k v).1 n hne]
+        simpa using hp
+      simp only [firstOf, hn]
+      exact ih h
+
+theorem firstOf_set_absent (cs : List DNode) (names : List Str) (k v : Str)
+    (h : ∀ n ∈ names, pget cs n = none) (hk : k ∈ names) :
+    firstOf (paraSet cs k v) names = some v := by
+  induction names with
+  | nil => simp at hk
+  | cons n ns ih =>
+    by_cases e : n = k
+    · subst e; simp [firstOf, C15_set_get]
+    · have hn : pget (paraSet cs k v) n = none := by
+        rw [(C15_set_frame cs k v).1 n e]; exact h n (by simp)
+      simp only [firstOf, hn]
+      have : k ∈ ns := by
+        simp only [List.mem_cons] at hk
+        rcases hk with hk | hk
+        · exact absurd hk.symm e
+        · exact hk
+      exact ih (fun m hm => h m (by simp [hm])) this
+
+/-- whatever the prior paragraph: after writing `v` to the target field, the getter's
+    `get(A).or_else(|| get(B))` chain reads `v` -/
+theorem C15_target_get (cs : List DNode) (names : List Str) (dflt v : Str) (hd : dflt ∈ names) :
+    firstOf (paraSet cs (target cs names dflt) v) names = some v := by
+  unfold target
+  cases h : names.find? fun n => (pget cs n).isSome with
+  | some k => exact firstOf_set_present cs names k v h
+  | none =>
+    apply firstOf_set_absent cs names dflt v _ hd
+    intro n hn
+    have := List.find?_eq_none.1 h n hn
+    simpa using this
+
+/-- the text the setter sees as "old" is the text of the field it is about to write -/
+theorem C15_target_old (cs : List DNode) (names : List Str) (dflt : Str) :
+    firstOf cs names = none ∨ firstOf cs names = pget cs (target cs names dflt) := by
+  unfold target
+  induction names with
+  | nil => left; rfl
+  | cons n ns ih =>
+    simp only [firstOf, List.find?_cons]
+    cases hp : pget cs n with
+    | some v => right; simp [hp]
+    | none =>
+      simp only [Option.isSome_none]
+      exact ih
+
 /-! ### sequences of setters on one paragraph -/
 
 /-- a history of `set` calls -/
@@ -574,20 +665,139 @@ example : C18.CanonOriginField (some "Upstream".toList) (.commit "abc".toList) :
   ⟨trivial, by decide⟩
 example : ∀ x ∈ ["a".toList, "b c".toList], ',' ∉ x := by decide
 
+/-! ### DEP-3 synopsis and long description: two readings of one field -/
+
+theorem splitOnFirst_nl_spec (o : Str) :
+    (∀ r, Codec.splitOnFirst ['\n'] o = some r → '\n' ∉ r.1 ∧ o = r.1 ++ '\n' :: r.2)
+    ∧ (Codec.splitOnFirst ['\n'] o = none → '\n' ∉ o) := by
+  induction o with
+  | nil => simp [Codec.splitOnFirst]
+  | cons c cs ih =>
+    by_cases hc : c = '\n'
+    · subst hc
+      refine ⟨fun r h => ?_, fun h => ?_⟩
+      · simp [Codec.splitOnFirst] at h
+        subst h
+        simp
+      · simp [Codec.splitOnFirst] at h
+    · have hp : (['\n'] : Str).isPrefixOf (c :: cs) = false := by
+        simp [List.isPrefixOf, hc, Ne.symm hc]
+      refine ⟨fun r h => ?_, fun h => ?_⟩
+      · simp only [Codec.splitOnFirst, hp, Bool.false_eq_true, ↓reduceIte] at h
+        cases hs : Codec.splitOnFirst ['\n'] cs with
+        | none => rw [hs] at h; cases h
+        | some r' =>
+          rw [hs] at h
+          simp only [Option.some.injEq] at h
+          subst h
+          obtain ⟨h1, h2⟩ := ih.1 r' hs
+          refine ⟨?_, ?_⟩
+          · simp [hc, Ne.symm hc, h1]
+          · simp [← h2]
+      · simp only [Codec.splitOnFirst, hp, Bool.false_eq_true, ↓reduceIte] at h
+        cases hs : Codec.splitOnFirst ['\n'] cs with
+        | none => simp [hc, Ne.symm hc, ih.2 hs]
+        | some r' => rw [hs] at h; cases h
+
+theorem firstLineOf_no_nl (o : Str) : '\n' ∉ firstLineOf o := by
+  unfold firstLineOf
+  cases h : Codec.splitOnFirst ['\n'] o with
+  | some r => exact ((splitOnFirst_nl_spec o).1 r h).1
+  | none => exact (splitOnFirst_nl_spec o).2 h
+
+theorem decode_firstLine_cons (s rest : Str) (h : '\n' ∉ s) (st a : Bool) :
+    decode .firstLine st a (s ++ '\n' :: rest) = .text s := by
+  simp [decode, Text.splitOn_cons '\n' s rest h]
+
+theorem decode_firstLine_single (s : Str) (h : '\n' ∉ s) (st a : Bool) :
+    decode .firstLine st a s = .text s := by
+  simp [decode, Text.splitOn_none '\n' s h]
+
+theorem decode_restLines_cons (s rest : Str) (h : '\n' ∉ s) (st a : Bool) :
+    decode .restLines st a (s ++ '\n' :: rest) = .text rest := by
+  have := C18.splitOnFirst_found '\n' [] s rest h
+  simp only [List.append_assoc, List.cons_append, List.nil_append] at this
+  simp [decode, this]
+
+theorem decode_restLines_single (s : Str) (h : '\n' ∉ s) (st a : Bool) :
+    decode .restLines st a s = .text [] := by
+  simp [decode, C18.splitOnFirst_none '\n' [] s h]
+
+/-- `set_description(v)` then `description()`: `v`, for a one-line `v`, whatever the field held
+    before (absent, one line, several lines) -/
+theorem C15_codec_first_line (old : Option Str) (v : Str) (h : '\n' ∉ v) (st a : Bool) :
+    (writeText .firstLine old (.text v)).map (decode .firstLine st a) = some (.text v) := by
+  cases old with
+  | none =>
+    simp only [writeText, Option.map_some, Option.some.injEq]
+    exact decode_firstLine_single v h st a
+  | some o =>
+    simp only [writeText, Option.map_some, Option.some.injEq]
+    cases hs : Codec.splitOnFirst ['\n'] o with
+    | some r => exact decode_firstLine_cons v r.2 h st a
+    | none => exact decode_firstLine_single v h st a
+
+/-- `set_long_description(v)` then `long_description()`: `v`, when the field exists -/
+theorem C15_codec_rest_lines (o v : Str) (st a : Bool) :
+    (writeText .restLines (some o) (.text v)).map (decode .restLines st a) = some (.text v) := by
+  simp only [writeText, Option.map_some, Option.some.injEq]
+  split
+  · rename_i hv; subst hv
+    exact decode_restLines_single _ (firstLineOf_no_nl o) st a
+  · exact decode_restLines_cons _ v (firstLineOf_no_nl o) st a
+
+/-- open finding F-C15-8: on an ABSENT field `set_long_description(v)` stores `v` as the whole
+    field, so its first line becomes the synopsis and `long_description()` does not return `v` -/
+theorem C15_codec_rest_lines_absent_wrong :
+    (writeText .restLines none (.text "fix a bug".toList)).map (decode .restLines false false)
+      = some (.text []) ∧
+    (writeText .restLines none (.text "fix a bug".toList)).map (decode .firstLine false false)
+      = some (.text "fix a bug".toList) := by decide +kernel
+
+/-- the two setters do not disturb each other's reading: `set_description` keeps the long
+    description, `set_long_description` keeps the synopsis -/
+theorem C15_synopsis_long_independent (o v : Str) (st a : Bool) :
+    ('\n' ∉ v → (writeText .firstLine (some o) (.text v)).map (decode .restLines st a)
+        = some (decode .restLines st a o))
+    ∧ (writeText .restLines (some o) (.text v)).map (decode .firstLine st a)
+        = some (decode .firstLine st a o) := by
+  refine ⟨fun hv => ?_, ?_⟩
+  · simp only [writeText, Option.map_some, Option.some.injEq]
+    cases hs : Codec.splitOnFirst ['\n'] o with
+    | some r =>
+      obtain ⟨h1, h2⟩ := (splitOnFirst_nl_spec o).1 r hs
+      rw [decode_restLines_cons v r.2 hv]
+      conv => rhs; rw [h2]
+      rw [decode_restLines_cons r.1 r.2 h1]
+    | none =>
+      have := (splitOnFirst_nl_spec o).2 hs
+      rw [decode_restLines_single v hv, decode_restLines_single o this]
+  · simp only [writeText, Option.map_some, Option.some.injEq]
+    have hf := firstLineOf_no_nl o
+    have hold : decode .firstLine st a o = .text (firstLineOf o) := by
+      unfold firstLineOf
+      cases hs : Codec.splitOnFirst ['\n'] o with
+      | some r =>
+        obtain ⟨h1, h2⟩ := (splitOnFirst_nl_spec o).1 r hs
+        conv => lhs; rw [h2]
+        exact decode_firstLine_cons r.1 r.2 h1 st a
+      | none => exact decode_firstLine_single o ((splitOnFirst_nl_spec o).2 hs) st a
+    rw [hold]
+    split
+    · exact decode_firstLine_single _ hf st a
+    · exact decode_firstLine_cons _ v hf st a
+
+/-- environment maps: what `set_environment` writes for one variable reads back -/
+example : (encode .envMap (.list ["B=x=y".toList, "A=1".toList])).map (decode .envMap true false)
+    = some (.list ["A=1".toList, "B=x=y".toList]) := by decide +kernel
+
+
 /-! ## Layer 3 — the generated table -/
 
-
-/-- Gen.Accessors.rows of the real code that do not satisfy the table conditions (one witness theorem each below,
+/-- rows of the real code that do not satisfy the table conditions (one witness theorem each below,
     one open entry each in known_findings.json) -/
 def knownBad : List (Str × Str) := [
-  ("dep3.PatchHeader".toList, "set_origin".toList),
-  ("dep3.PatchHeader".toList, "set_forwarded".toList),
-  ("dep3.PatchHeader".toList, "set_author".toList),
-  ("dep3.PatchHeader".toList, "set_last_update".toList),
-  ("dep3.PatchHeader".toList, "set_applied_upstream".toList),
   ("dep3.PatchHeader".toList, "set_upstream_bug".toList),
-  ("dep3.PatchHeader".toList, "set_description".toList),
-  ("dep3.PatchHeader".toList, "set_long_description".toList),
   ("copyright.FilesParagraph".toList, "set_license".toList)
 ]
 
@@ -698,20 +908,28 @@ def compat (g s : Shape) : Bool :=
   | .originField, .originField => true
   | .rfc2822, .rfc2822 => true
   | .dateYmd, .dateYmd => true
+  | .firstLine, .firstLine => true
+  | .restLines, .restLines => true
+  | .envMap, .envMap => true
   | _, _ => false
 
-/-- the clearing branch: present exactly for `Option` arguments / yes-or-remove flags, and it is `remove` -/
+/-- the clearing branch: present exactly for `Option` arguments / yes-or-remove flags, it is `remove`,
+    and such a setter has one name -/
 def clearOk (s : Row) : Bool :=
-  if s.optional || s.shape == .flagYesOrRemove then s.clearOp == .remove else s.clearOp == .none
+  if s.optional || s.shape == .flagYesOrRemove then s.clearOp == .remove && s.names.length == 1
+  else s.clearOp == .none
 
+/-- the pair conditions: getter and setter of one view look for the SAME names in the SAME order
+    (one name for almost all; Author/From, Description/Subject), the setter's default name is one
+    of them, compatible codec shapes, the setter writes with `set` and clears with `remove` -/
 def pairOk (g s : Row) : Bool :=
   g.kind == .get && s.kind == .set && g.view == s.view && s.method == setPrefix ++ g.method
   && g.op == .get && s.op == .set
-  && g.names == s.names && g.names.length == 1
+  && g.names == s.names && !s.names.isEmpty && s.names.contains s.dflt
   && compat g.shape s.shape && clearOk s
 
-/-- Gen.Accessors.rows the pair conditions are not stated for: not classifiable (`opaque`), or only the operations
-    and names are extracted (`composite`) -/
+/-- rows the pair conditions are not stated for: not classifiable (`opaque`), or only the operations
+    and names are extracted (`composite`; no setter is at present) -/
 def unmodelledShape (r : Row) : Bool := r.shape == .opaque || r.shape == .composite
 
 def tablePairsCheck : Bool :=
@@ -721,8 +939,8 @@ def tablePairsCheck : Bool :=
       | none => true
       | some s => isBad s || unmodelledShape s || pairOk g s
 
-/-- every getter/setter pair (`f` / `set_f` of one view) outside `knownBad`: same literal, one
-    literal, compatible codec shapes, the setter uses `set` — not `insert` — and clears with `remove` -/
+/-- every getter/setter pair (`f` / `set_f` of one view) outside `knownBad`: same literals in the same
+    order, compatible codec shapes, the setter uses `set` — not `insert` — and clears with `remove` -/
 theorem C15_table_pairs : tablePairsCheck = true := by decide +kernel
 
 theorem C15_table_pairs' (g : Row) (hg : g ∈ Gen.Accessors.rows) (hk : g.kind = .get) (ho : g.isOpaque = false)
@@ -733,6 +951,10 @@ theorem C15_table_pairs' (g : Row) (hg : g ∈ Gen.Accessors.rows) (hk : g.kind 
   have := this g hg
   simp only [hk, ho, hs, hb, hu, Bool.or_false, Bool.false_or] at this
   simpa using this
+
+/-- no setter is left unmodelled except the opaque ones (parametric field names) -/
+theorem C15_table_no_composite_setter :
+    ∀ s ∈ Gen.Accessors.rows, s.kind = .set → s.shape ≠ .composite := by decide +kernel
 
 /-- every setter outside `knownBad` (paired with a getter or not) writes with `set` and clears with
     `remove` -/
@@ -749,29 +971,27 @@ theorem C15_table_total :
 theorem C15_known_panic_rows :
     ∀ p ∈ knownPanic, ((findRow p.1 p.2).map canPanic) = some true := by decide +kernel
 
+/-- two setters that are the two readings of one field (DEP-3 synopsis / long description) -/
+def subFieldPair (a b : Row) : Bool :=
+  (a.shape == .firstLine && b.shape == .restLines) || (a.shape == .restLines && b.shape == .firstLine)
+
 def distinctCheck : Bool :=
   let setters := Gen.Accessors.rows.filter fun r =>
     r.kind == .set && !r.isOpaque && r.shape != .addPara && !isBad r
   setters.all fun a => setters.all fun b =>
-    !(a.view == b.view && a.method != b.method) || a.names.all fun n => !b.names.contains n
+    !(a.view == b.view && a.method != b.method) || subFieldPair a b || a.names.all fun n => !b.names.contains n
 
 /-- within one view two different setters (outside `knownBad`) never write the same field name, so
     by `C15_seq_sets` a sequence of setters leaves each getter at the last value set through its
-    own setter -/
+    own setter; the one exception is the synopsis / long-description pair, which shares a field and
+    is covered by `C15_synopsis_long_independent` -/
 theorem C15_table_distinct : distinctCheck = true := by decide +kernel
 
 /-! ### witnesses: which table condition each `knownBad` row fails -/
 
 def rowOp (view method : String) : Option POp := (findRow view.toList method.toList).map (·.op)
 
-theorem C15_bad_dep3_set_origin : rowOp "dep3.PatchHeader" "set_origin" = some .insert := by decide +kernel
-theorem C15_bad_dep3_set_forwarded : rowOp "dep3.PatchHeader" "set_forwarded" = some .insert := by decide +kernel
-theorem C15_bad_dep3_set_author : rowOp "dep3.PatchHeader" "set_author" = some .insert := by decide +kernel
-theorem C15_bad_dep3_set_last_update : rowOp "dep3.PatchHeader" "set_last_update" = some .insert := by decide +kernel
-theorem C15_bad_dep3_set_applied_upstream : rowOp "dep3.PatchHeader" "set_applied_upstream" = some .insert := by decide +kernel
 theorem C15_bad_dep3_set_upstream_bug : rowOp "dep3.PatchHeader" "set_upstream_bug" = some .insert := by decide +kernel
-theorem C15_bad_dep3_set_description : rowOp "dep3.PatchHeader" "set_description" = some .insert := by decide +kernel
-theorem C15_bad_dep3_set_long_description : rowOp "dep3.PatchHeader" "set_long_description" = some .insert := by decide +kernel
 
 /-- `FilesParagraph::set_license` writes `License::Text` without the empty first line: its codec
     shape is not the one `license()` reads -/
@@ -787,64 +1007,86 @@ theorem C15_known_bad_rows :
       (s.op ≠ .set ∨ ∃ g, findRow p.1 (baseName p.2) = some g ∧ pairOk g s = false) := by
   decide +kernel
 
+/-- the repaired accessors are ordinary table pairs now: DEP-3 origin, forwarded, author (two
+    names), last_update, applied_upstream, description and long_description (two names, one
+    field), buildinfo environment -/
+theorem C15_repaired_pairs :
+    ∀ p ∈ [("dep3.PatchHeader", "origin"), ("dep3.PatchHeader", "forwarded"), ("dep3.PatchHeader", "author"),
+           ("dep3.PatchHeader", "last_update"), ("dep3.PatchHeader", "applied_upstream"),
+           ("dep3.PatchHeader", "description"), ("dep3.PatchHeader", "long_description"),
+           ("buildinfo.Buildinfo", "environment"), ("buildinfo.Buildinfo", "binaries"),
+           ("buildinfo.Buildinfo", "build_tainted_by")],
+      ((findRow p.1.toList p.2.toList).bind fun g => (setterOf g).map fun s => pairOk g s && !isBad s)
+        = some true := by decide +kernel
+
 /-! ### lifting a table pair to the set-then-get statement -/
 
 theorem firstOf_single (cs : List DNode) (k : Str) : firstOf cs [k] = pget cs k := by
   simp only [firstOf]
   cases pget cs k <;> rfl
 
-/-- for any two Gen.Accessors.rows satisfying the pair conditions, any prior paragraph and any value:
-    a non-clearing call stores `encode v` in the one field `k` by `Paragraph::set`, and the getter
-    then reads exactly `decode (encode v)`, independent of the prior paragraph;
-    a clearing call removes the field and the getter reports absence -/
+theorem target_single (cs : List DNode) (k d : Str) (h : d ∈ [k]) : target cs [k] d = k := by
+  have := target_mem cs [k] d h
+  simpa using this
+
+/-- for any two rows satisfying the pair conditions, any prior paragraph and any value:
+    a non-clearing call stores the written text in ONE field `k` — one of the names, the first one
+    present — by `Paragraph::set`, and the getter then reads exactly `decode` of that text,
+    independent of the rest of the prior paragraph; a clearing call removes the field and the
+    getter reports absence -/
 theorem C15_pair_sound (g s : Row) (h : pairOk g s = true) (cs : List DNode) (v : Val) (a : Bool) :
-    ∃ k, g.names = [k] ∧ s.names = [k]
-      ∧ (∀ t, clears s v = false → encode s.shape v = some t →
+    ∃ k, k = target cs s.names s.dflt ∧ k ∈ s.names ∧ g.names = s.names
+      ∧ (∀ t, clears s v = false → writeText s.shape (firstOf cs s.names) v = some t →
           setSem s v cs = some (paraSet cs k t)
           ∧ pget (paraSet cs k t) k = some t
           ∧ getSem g a (paraSet cs k t) = decode g.shape g.strict a t)
       ∧ (clears s v = true →
-          setSem s v cs = some (paraRemove cs k)
+          s.names = [k]
+          ∧ setSem s v cs = some (paraRemove cs k)
           ∧ pget (paraRemove cs k) k = none
           ∧ getSem g a (paraRemove cs k) = absentVal g) := by
-  simp only [pairOk, Bool.and_eq_true, beq_iff_eq] at h
-  obtain ⟨⟨⟨⟨⟨⟨⟨⟨⟨_, _⟩, _⟩, _⟩, hgop⟩, hsop⟩, hnames⟩, hlen⟩, _⟩, hclear⟩ := h
-  have hlen' : g.names.length = 1 := by simpa using hlen
-  obtain ⟨k, hk⟩ : ∃ k, g.names = [k] := by
-    cases hn : g.names with
-    | nil => rw [hn] at hlen'; cases hlen'
-    | cons k ks =>
-      cases ks with
-      | nil => exact ⟨k, rfl⟩
-      | cons _ _ => rw [hn] at hlen'; simp at hlen'
-  have hsk : s.names = [k] := by rw [← hnames, hk]
-  refine ⟨k, hk, hsk, ?_, ?_⟩
+  simp only [pairOk, Bool.and_eq_true, beq_iff_eq, Bool.not_eq_true', List.contains_eq_mem,
+    decide_eq_true_eq] at h
+  obtain ⟨⟨⟨⟨⟨⟨⟨⟨⟨⟨_, _⟩, _⟩, _⟩, hgop⟩, hsop⟩, hnames⟩, hne⟩, hd⟩, _⟩, hclear⟩ := h
+  have hmem := target_mem cs s.names s.dflt hd
+  have hne' : s.names.isEmpty = false := hne
+  refine ⟨_, rfl, hmem, hnames, ?_, ?_⟩
   · intro t hc he
-    refine ⟨?_, C15_set_get cs k t, ?_⟩
-    · simp [setSem, hsk, hc, he, applyOp, hsop]
-    · simp [getSem, hgop, hk, firstOf_single, C15_set_get]
+    refine ⟨?_, C15_set_get cs _ t, ?_⟩
+    · simp [setSem, hne', hc, he, applyOp, hsop]
+    · simp [getSem, hgop, hnames, C15_target_get cs s.names s.dflt t hd]
   · intro hc
-    have hrem : s.clearOp = .remove := by
-      have : (s.optional || s.shape == .flagYesOrRemove) = true := by
-        unfold clears at hc
-        split at hc
-        · simp [hc]
-        · simp [hc]
-        · cases hc
-      simp only [clearOk, this, ↓reduceIte, beq_iff_eq] at hclear
-      exact hclear
-    refine ⟨?_, (C15_clear cs k).1, ?_⟩
-    · simp [setSem, hsk, hc, applyClear, hrem]
-    · simp [getSem, hgop, hk, firstOf_single, (C15_clear cs k).1]
+    have hopt : (s.optional || s.shape == .flagYesOrRemove) = true := by
+      unfold clears at hc
+      split at hc
+      · simp [hc]
+      · simp [hc]
+      · cases hc
+    simp only [clearOk, hopt, ↓reduceIte, Bool.and_eq_true, beq_iff_eq] at hclear
+    obtain ⟨hrem, hlen⟩ := hclear
+    obtain ⟨k, hk⟩ : ∃ k, s.names = [k] := by
+      cases hn : s.names with
+      | nil => rw [hn] at hlen; cases hlen
+      | cons k ks =>
+        cases ks with
+        | nil => exact ⟨k, rfl⟩
+        | cons _ _ => rw [hn] at hlen; simp at hlen
+    have htk : target cs s.names s.dflt = k := by
+      rw [hk] at hd ⊢
+      exact target_single cs k s.dflt hd
+    rw [htk]
+    refine ⟨hk, ?_, (C15_clear cs k).1, ?_⟩
+    · simp [setSem, hne', hc, applyClear, hrem, htk]
+    · simp [getSem, hgop, hnames, hk, firstOf_single, (C15_clear cs k).1]
 
 /-- set-then-get: with the codec round trip of the two shapes, the getter returns the value set —
     for every prior paragraph -/
 theorem C15_set_then_get (g s : Row) (h : pairOk g s = true) (cs : List DNode) (v : Val) (a : Bool)
     (hc : clears s v = false)
-    (hrt : (encode s.shape v).map (decode g.shape g.strict a) = some v) :
+    (hrt : (writeText s.shape (firstOf cs s.names) v).map (decode g.shape g.strict a) = some v) :
     ∃ cs', setSem s v cs = some cs' ∧ getSem g a cs' = v := by
-  obtain ⟨k, _, _, h1, _⟩ := C15_pair_sound g s h cs v a
-  cases he : encode s.shape v with
+  obtain ⟨k, _, _, _, h1, _⟩ := C15_pair_sound g s h cs v a
+  cases he : writeText s.shape (firstOf cs s.names) v with
   | none => rw [he] at hrt; cases hrt
   | some t =>
     rw [he] at hrt
@@ -853,13 +1095,47 @@ theorem C15_set_then_get (g s : Row) (h : pairOk g s = true) (cs : List DNode) (
     rw [e3]
     simpa using hrt
 
+/-- only the synopsis / long-description setters look at the old text -/
+theorem writeText_eq_encode (sh : Shape) (old : Option Str) (v : Val)
+    (h1 : sh ≠ .firstLine) (h2 : sh ≠ .restLines) : writeText sh old v = encode sh v := by
+  unfold writeText
+  split
+  · exact absurd rfl h1
+  · exact absurd rfl h2
+  · rfl
+
 /-- … instantiated on the generated table: every `f` / `set_f` pair of every view outside `knownBad` -/
 theorem C15_table_set_then_get (g : Row) (hg : g ∈ Gen.Accessors.rows) (hk : g.kind = .get) (ho : g.isOpaque = false)
     (s : Row) (hs : setterOf g = some s) (hb : isBad s = false) (hu : unmodelledShape s = false)
     (cs : List DNode) (v : Val) (a : Bool) (hc : clears s v = false)
+    (h1 : s.shape ≠ .firstLine) (h2 : s.shape ≠ .restLines)
     (hrt : RoundTrip g.shape s.shape v) :
-    ∃ cs', setSem s v cs = some cs' ∧ getSem g a cs' = v :=
-  C15_set_then_get g s (C15_table_pairs' g hg hk ho s hs hb hu) cs v a hc (hrt g.strict a)
+    ∃ cs', setSem s v cs = some cs' ∧ getSem g a cs' = v := by
+  apply C15_set_then_get g s (C15_table_pairs' g hg hk ho s hs hb hu) cs v a hc
+  rw [writeText_eq_encode _ _ _ h1 h2]
+  exact hrt g.strict a
+
+/-- DEP-3 `set_description(v)` then `description()` is `v` (one line), on every prior paragraph —
+    field absent, under Description or under Subject, with or without a long text -/
+theorem C15_description_set_then_get (g s : Row) (h : pairOk g s = true)
+    (hg : g.shape = .firstLine) (hs : s.shape = .firstLine)
+    (cs : List DNode) (v : Str) (hv : '\n' ∉ v) (a : Bool) :
+    ∃ cs', setSem s (.text v) cs = some cs' ∧ getSem g a cs' = .text v := by
+  apply C15_set_then_get g s h cs (.text v) a (by simp [clears])
+  rw [hs, hg]
+  exact C15_codec_first_line _ v hv _ _
+
+/-- DEP-3 `set_long_description(v)` then `long_description()` is `v` whenever a Description or
+    Subject field exists (the absent-field case is the open finding F-C15-8) -/
+theorem C15_long_description_set_then_get (g s : Row) (h : pairOk g s = true)
+    (hg : g.shape = .restLines) (hs : s.shape = .restLines)
+    (cs : List DNode) (v : Str) (a : Bool) (hp : firstOf cs s.names ≠ none) :
+    ∃ cs', setSem s (.text v) cs = some cs' ∧ getSem g a cs' = .text v := by
+  apply C15_set_then_get g s h cs (.text v) a (by simp [clears])
+  rw [hs, hg]
+  cases ho : firstOf cs s.names with
+  | none => exact absurd ho hp
+  | some o => exact C15_codec_rest_lines o v _ _
 
 /-- clearing on the generated table: `set_f(None)` (or `set_f(false)` for a yes-or-remove flag)
     removes the field; the getter then reports its absent value -/
@@ -867,14 +1143,20 @@ theorem C15_table_clear (g : Row) (hg : g ∈ Gen.Accessors.rows) (hk : g.kind =
     (s : Row) (hs : setterOf g = some s) (hb : isBad s = false) (hu : unmodelledShape s = false)
     (cs : List DNode) (v : Val) (a : Bool) (hc : clears s v = true) :
     ∃ cs', setSem s v cs = some cs' ∧ getSem g a cs' = absentVal g := by
-  obtain ⟨k, _, _, _, h2⟩ := C15_pair_sound g s (C15_table_pairs' g hg hk ho s hs hb hu) cs v a
-  exact ⟨_, (h2 hc).1, (h2 hc).2.2⟩
+  obtain ⟨k, _, _, _, _, h2⟩ := C15_pair_sound g s (C15_table_pairs' g hg hk ho s hs hb hu) cs v a
+  exact ⟨_, (h2 hc).2.1, (h2 hc).2.2.2⟩
 
 /-- the hypotheses are satisfiable: `control.Source.maintainer` / `set_maintainer` -/
 example : ∃ g s, g ∈ Gen.Accessors.rows ∧ g.kind = .get ∧ g.isOpaque = false ∧ setterOf g = some s ∧ isBad s = false
     ∧ unmodelledShape s = false ∧ pairOk g s = true := by
   refine ⟨(findRow "control.Source".toList "maintainer".toList).get (by decide +kernel),
     (findRow "control.Source".toList "set_maintainer".toList).get (by decide +kernel), ?_⟩
+  decide +kernel
+
+/-- … and for the two-name pairs: `dep3.PatchHeader.description` / `set_description` -/
+example : ∃ g s, pairOk g s = true ∧ g.shape = .firstLine ∧ s.shape = .firstLine ∧ s.names.length = 2 := by
+  refine ⟨(findRow "dep3.PatchHeader".toList "description".toList).get (by decide +kernel),
+    (findRow "dep3.PatchHeader".toList "set_description".toList).get (by decide +kernel), ?_⟩
   decide +kernel
 
 end Deb822Verif.Props.C15
